@@ -6,6 +6,7 @@ import (
 	"fmt"
 	"go/types"
 	"sort"
+	"strconv"
 	"strings"
 
 	"golang.org/x/tools/go/ssa"
@@ -232,6 +233,57 @@ func checkValuePredicateKinds(r *Report, rule string) (map[string][]*ssa.Functio
 	return classes, isClass
 }
 
+// intOfParam: t is the value of parameter 0 asserted to one of the ten integer
+// kinds on this path and converted to int64 (nothing added, nothing masked),
+// possibly through an in-package helper all of whose accepting paths do that.
+func intOfParam(P *Prog, t *Term, p *Path, depth int) string {
+	x := t
+	if x.Op == "convert" && x.S == "int64" && len(x.Args) == 1 {
+		x = x.Args[0]
+	}
+	if x.Op == "res" && x.S == "0" && len(x.Args) == 1 && x.Args[0].Op == "typeassert" && len(x.Args[0].Args) == 1 && x.Args[0].Args[0].String() == "$0" {
+		k := strings.TrimSuffix(x.Args[0].S, ",ok")
+		isKind := false
+		for _, l := range [][]string{signedKinds, unsignedKinds} {
+			for _, n := range l {
+				if n == k {
+					isKind = true
+				}
+			}
+		}
+		if !isKind {
+			return "asserted to " + k + ", not an integer kind"
+		}
+		if k != "int64" && x == t {
+			return "not converted to int64"
+		}
+		if !p.has(Fact{&Term{Op: "res", S: "1", Args: []*Term{x.Args[0]}}, true}) {
+			return "the assertion to " + k + " is not tested on this path"
+		}
+		return ""
+	}
+	if t.Op == "res" && t.S == "0" && len(t.Args) == 1 && t.Args[0].Op == "call" && len(t.Args[0].Args) == 1 && t.Args[0].Args[0].String() == "$0" && depth < 2 {
+		g := P.calleeOfTerm(t.Args[0])
+		if g != nil && g.Signature.Results().Len() == 2 && boolResultIndex(g) == 1 {
+			n := 0
+			for _, q := range P.allPaths(g) {
+				res := q.results()
+				if res[1].Op == "const" && res[1].S == "false" {
+					continue
+				}
+				n++
+				if why := intOfParam(P, res[0], q, depth+1); why != "" {
+					return "in " + shortFn(g) + ": " + why
+				}
+			}
+			if n > 0 {
+				return ""
+			}
+		}
+	}
+	return "not the parameter's own integer value converted to int64"
+}
+
 func runC13(r *Report, tier string) {
 	P := r.P
 	r.rule("R13.1", "the validator's per-entry paths, lowered to a table label -> conditions on the way to acceptance, satisfy RFC 9052 3.1 / RFC 9338: alg: Algorithm|int|tstr; crit: protected only, crit helper succeeded; content type / typ: uint, or tstr non-empty without leading/trailing space and with exactly one '/'; kid, IV, Partial IV: bstr; IV and Partial IV exclude each other; 7/11: unprotected only, countersignature value predicate; 9/12: unprotected only, bstr; every label normalises and is not a duplicate. The value predicates are identified and checked by their kind tables (int: ten integer kinds; uint: unsigned kinds, signed with >= 0; tstr: string; bstr: non-nil []byte - a nil slice would be emitted as CBOR null); label constants equal their IANA values.")
@@ -273,6 +325,9 @@ func runC13(r *Report, tier string) {
 					bad = "the label is returned unchanged on a path that is not the string arm"
 				}
 			case v.Op == "iface" && v.S == "int64":
+				if why := intOfParam(P, v.Args[0], p, 0); why != "" {
+					bad = "an accepting path returns the int64 " + truncate(v.Args[0].String(), 120) + ": " + why
+				}
 			case v.Op == "iface" && v.S == "string" && v.Args[0].String() == "res<0>(typeassert<string,ok>($0))" && p.has(Fact{&Term{Op: "res", S: "1", Args: []*Term{{Op: "typeassert", S: "string,ok", Args: []*Term{T("param", "0")}}}}, true}):
 				// the string arm returning the asserted value re-wrapped: the same string
 			default:
@@ -443,8 +498,14 @@ func runC13(r *Report, tier string) {
 				if c.Val && c.Pred.Op == "binop" && c.Pred.S == "==" {
 					for i := 0; i < 2; i++ {
 						call := c.Pred.Args[i]
+						ri := -1
+						if call.Op == "res" && len(call.Args) == 1 {
+							// the helper may hand something back next to its verdict
+							ri, _ = strconv.Atoi(call.S)
+							call = call.Args[0]
+						}
 						if c.Pred.Args[1-i].Op == "nil" && call.Op == "call" && len(call.Args) == 2 && call.Args[0].eq(V) && call.Args[1].String() == "$0" {
-							if f := P.calleeOfTerm(call); f != nil {
+							if f := P.calleeOfTerm(call); f != nil && errIndex(f) >= 0 && (ri == errIndex(f) || (ri < 0 && f.Signature.Results().Len() == 1)) {
 								crit[f] = true
 								return ""
 							}
@@ -596,7 +657,7 @@ func runC13(r *Report, tier string) {
 						for _, c := range p.conds {
 							fs.add(c)
 						}
-						if k, _ := P.classifyErr(p.results()[0], fs); k != exitFailure {
+						if k, _ := P.classifyErr(p.results()[errIndex(cf)], fs); k != exitFailure {
 							why = "the loop body can return success"
 						}
 						continue
@@ -910,6 +971,8 @@ func (P *Prog) isTestAndInsert(h *ssa.Function) bool {
 
 func mutC13() []mutant {
 	return []mutant{
+		{Name: "uint8 labels are sign-extended on normalisation", File: "headers.go", Rule: "R13.7",
+			Old: "\tcase uint8:\n\t\tlabel = int64(v)\n", New: "\tcase uint8:\n\t\tlabel = int64(int8(v))\n"},
 		{Name: "D2 re-created: hasLabel looks the label up with a bare key", File: "headers.go", Quick: true, Rule: "R13.6",
 			Old: "\t_, ok := lookupLabel(h, label)\n\treturn ok", New: "\t_, ok := h[label]\n\treturn ok"},
 		{Name: "D5 re-created: the bstr predicate accepts a nil byte slice", File: "headers.go", Quick: true, Rule: "R13.1",
